@@ -1,0 +1,11 @@
+// +build !verif
+
+// Package verifhook provides durable-write failpoints for verification builds.
+// Without the "verif" build tag every function is an inlinable no-op.
+package verifhook
+
+// Write marks a durable write about to be issued at the named site.
+func Write(site string) {}
+
+// Fail lets a verification build inject an error for the operation at site.
+func Fail(site string) error { return nil }
